@@ -38,7 +38,7 @@ def _metadata_findings(mm, out, term_syntax):
     bad = []
     if out == "pandas" and list(mm.columns) != labels:
         bad.append(("column-names", f"column_names {labels} != DataFrame labels {list(mm.columns)}"))
-    ncols = numpy.asarray(mm, dtype=object).reshape((mc.NROWS, -1)).shape[1] if labels else 0
+    ncols = numpy.asarray(mm.todense() if out == "sparse" else mm, dtype=object).reshape((mc.NROWS, -1)).shape[1] if labels else 0
     if ncols != len(labels):
         bad.append(("column-names", f"{len(labels)} names for {ncols} columns"))
     if dict(spec.column_indices) != {l: i for i, l in enumerate(labels)}:
